@@ -166,6 +166,107 @@ fn c15_liveness(delete_only: bool, mask: u8) -> impl Fn() + Sync + Send + 'stati
 	}
 }
 
+/// C15 liveness of the whole pipeline: the client commits `sizes` and then only watches (yielding): every commit
+/// must be logged and every record enacted by the workers alone, without shutdown and without further commits.
+fn c15_liveness_seq(sizes: &'static [usize], mask: u8) -> impl Fn() + Sync + Send + 'static {
+	move || {
+		ITER.fetch_add(1, Ordering::SeqCst);
+		let dir = fresh_dir();
+		parity_db::verif::set_external_workers(true);
+		let opts = options(&dir, vec![ColumnOptions::default()], true);
+		let db = Arc::new(Db::open_or_create(&opts).expect("open"));
+		let mut workers = vec![];
+		for (wi, w) in [Worker::Log, Worker::Flush, Worker::Commit, Worker::Cleanup].into_iter().enumerate() {
+			if mask & (1 << wi) == 0 {
+				continue
+			}
+			let db = db.clone();
+			workers.push(loom::thread::spawn(move || db.verif_run_worker(w)));
+		}
+		for (i, s) in sizes.iter().enumerate() {
+			db.commit(vec![(0u8, key(i as u8), Some(val(*s, i as u8)))]).expect("commit");
+			loom::thread::yield_now();
+		}
+		let mut spins = 0;
+		loop {
+			let d = db.verif_digest();
+			if d.commit_queue_len == 0 && d.last_enacted as usize == sizes.len() {
+				break
+			}
+			loom::thread::yield_now();
+			spins += 1;
+			assert!(
+				spins < 300,
+				"after 300 yields of an otherwise idle client the pipeline has not drained: {} commits queued, {} of {} records enacted, {} log files waiting to be read, {} waiting for cleanup",
+				d.commit_queue_len, d.last_enacted, sizes.len(), d.read_queue, d.cleanup_queue
+			);
+		}
+		STAT_DRAINED.fetch_add(1, Ordering::SeqCst);
+		STAT_ENACTED.fetch_add(1, Ordering::SeqCst);
+		db.verif_shutdown();
+		for w in workers {
+			w.join().unwrap();
+		}
+		let db = Arc::try_unwrap(db).ok().expect("sole owner");
+		drop(db);
+	}
+}
+
+/// C15 backlog: `n` flushed log files are already waiting when the commit and cleanup workers start (the state a
+/// slow commit worker is in); the workers alone must enact all of them although the number of files awaiting
+/// cleanup passes its limit on the way.
+fn c15_backlog(n: usize, mask: u8) -> impl Fn() + Sync + Send + 'static {
+	move || {
+		ITER.fetch_add(1, Ordering::SeqCst);
+		let dir = fresh_dir();
+		parity_db::verif::set_external_workers(true);
+		let opts = options(&dir, vec![ColumnOptions::default()], true);
+		let db = Arc::new(Db::open_or_create(&opts).expect("open"));
+		for i in 0..n {
+			db.commit(vec![(0u8, key(i as u8), Some(val(8, i as u8)))]).expect("commit");
+			db.process_commits().unwrap();
+			db.flush_logs().unwrap();
+		}
+		assert_eq!(db.verif_digest().read_queue, n, "harness: expected one flushed log file per commit");
+		let mut workers = vec![];
+		for (wi, w) in [Worker::Log, Worker::Flush, Worker::Commit, Worker::Cleanup].into_iter().enumerate() {
+			if mask & (1 << wi) == 0 {
+				continue
+			}
+			let db = db.clone();
+			workers.push(loom::thread::spawn(move || db.verif_run_worker(w)));
+		}
+		let mut spins = 0;
+		loop {
+			let d = db.verif_digest();
+			if d.last_enacted as usize == n {
+				break
+			}
+			loom::thread::yield_now();
+			spins += 1;
+			assert!(
+				spins < 300,
+				"after 300 yields of an idle client the backlog is not enacted: {} of {} records enacted, {} log files waiting to be read, {} waiting for cleanup",
+				d.last_enacted, n, d.read_queue, d.cleanup_queue
+			);
+		}
+		STAT_DRAINED.fetch_add(1, Ordering::SeqCst);
+		STAT_ENACTED.fetch_add(1, Ordering::SeqCst);
+		db.verif_shutdown();
+		for w in workers {
+			w.join().unwrap();
+		}
+		let db = Arc::try_unwrap(db).ok().expect("sole owner");
+		drop(db);
+		let opts = options(&dir, vec![ColumnOptions::default()], false);
+		let db = Db::open(&opts).expect("reopen");
+		for i in 0..n {
+			assert_eq!(db.get(0, &key(i as u8)).unwrap(), Some(val(8, i as u8)), "commit {} lost", i);
+		}
+		drop(db);
+	}
+}
+
 /// C15 throttling: one commit puts the queue over its limit, then `n` more clients commit (all throttled) while
 /// the log worker drains; every commit call must return.
 fn c15_throttled_clients(n: usize, mask: u8) -> impl Fn() + Sync + Send + 'static {
@@ -585,6 +686,13 @@ fn run_child(prop: &str, tier: &str, idx: usize) -> Outcome {
 		("C15", 14) => explore("liveness/set-logged-without-client-activity", 2, wall, c15_liveness(false, 0b0001)),
 		("C15", 15) => explore("liveness/delete-only-logged-without-client-activity", 2, wall, c15_liveness(true, 0b0001)),
 		("C15", 16) => explore("throttling/two-clients-blocked-on-full-queue", 1, wall, c15_throttled_clients(2, 0b0001)),
+		("C15", 19) => explore("liveness/over-log-limit-then-small-enacted-without-shutdown", 1, wall, c15_liveness_seq(&[600, 8], 0b0111)),
+		("C15", 20) => explore("liveness/3-commits-all-workers-enacted-without-shutdown", 1, wall, c15_liveness_seq(&[8, 8, 8], 0b1111)),
+		("C15", 23) => explore("backlog/3-flushed-files-then-commit+cleanup-workers", 2, wall, c15_backlog(3, 0b1100)),
+		("C15", 24) => explore("backlog/4-flushed-files-then-all-workers", 1, wall, c15_backlog(4, 0b1111)),
+		("C15", 25) if !quick => explore("backlog/5-flushed-files-then-commit+cleanup-workers", 3, wall, c15_backlog(5, 0b1100)),
+		("C15", 21) if !quick => explore("liveness/over-log-limit-then-small-enacted-without-shutdown", 2, wall, c15_liveness_seq(&[600, 8], 0b0111)),
+		("C15", 22) if !quick => explore("liveness/4-commits-all-workers-enacted-without-shutdown", 1, wall, c15_liveness_seq(&[8, 8, 8, 8], 0b1111)),
 		("C15", 17) if !quick => explore("throttling/two-clients-blocked-on-full-queue", 2, wall, c15_throttled_clients(2, 0b0001)),
 		("C15", 18) if !quick => explore("liveness/delete-only-all-workers", 1, wall, c15_liveness(true, 0b1111)),
 		("C15", 6) if !quick => explore("workers/2-small-commits", 3, wall, c15_scenario(&[8, 8], false)),
@@ -634,7 +742,7 @@ fn main() {
 	let evidence_name = if prop == "C11L" { "C11-loom".to_string() } else { prop.clone() };
 	// all scenario/bound pairs in parallel, one process each
 	let mut children = vec![];
-	for idx in 0..19 {
+	for idx in 0..26 {
 		let c = std::process::Command::new(&exe).args([&prop, &tier, "--child", &idx.to_string()]).stdout(std::process::Stdio::piped()).stderr(std::process::Stdio::null()).spawn().unwrap();
 		children.push((idx, c));
 	}
